@@ -9,6 +9,7 @@
 package txapply
 
 import (
+	"bytes"
 	"fmt"
 	"math/big"
 
@@ -805,6 +806,118 @@ func (w *world) sigseq(env *drive.Env, b *Beh) error {
 	return nil
 }
 
+// objseq performs a sequence of operations on ONE transaction value: "home" / "foreign" (types.Sender + AsMessage under that
+// signer), "hash" (Hash), "apply" (ApplyTransaction on a fresh block state: who is charged), and the decoders "json"
+// (UnmarshalJSON), "rlp" (rlp.DecodeBytes into the existing value), "rlpstream" (DecodeRLP on a stream), which decode ANOTHER
+// transaction -- B, a plain transfer signed by the second key -- into the same value.  The value starts as the case A,
+// decoded from RLP into a fresh value.
+func (w *world) objseq(env *drive.Env, b *Beh) error {
+	txA, tA, err := w.signedCase(b.Tx)
+	if err != nil {
+		return err
+	}
+	txB, _, err := w.signedCase(&TxCls{S: 2, Nc: "eq", Lim: "exact", Val: "zero", Tp: [2]string{"acct", "none"}, Price: 1})
+	if err != nil {
+		return err
+	}
+	holders := map[common.Address]string{w.accts[tA.S].Addr: "A", w.accts[2].Addr: "B"}
+	hashes := map[common.Hash]string{txA.Hash(): "A", txB.Hash(): "B"}
+	encA, err := rlp.EncodeToBytes(txA)
+	if err != nil {
+		return err
+	}
+	encB, err := rlp.EncodeToBytes(txB)
+	if err != nil {
+		return err
+	}
+	jsonB, err := txB.MarshalJSON()
+	if err != nil {
+		return err
+	}
+	obj := new(types.Transaction)
+	if err := rlp.DecodeBytes(encA, obj); err != nil {
+		return err
+	}
+	foreign := types.NewYouSigner(otherNet)
+	content, via := "A", "new"
+	for i, op := range b.Seq {
+		ev := map[string]interface{}{"ev": "Obj", "step": i + 1, "op": op, "cls": b.Tx}
+		func() {
+			defer func() {
+				if r := recover(); r != nil {
+					ev["panic"] = fmt.Sprint(r)
+				}
+			}()
+			who := func(signer types.Signer) string {
+				from, err := types.Sender(signer, obj)
+				res := "other"
+				if err != nil {
+					res = "err"
+				} else if h, ok := holders[from]; ok {
+					res = h
+				}
+				if msg, err2 := obj.AsMessage(signer); (err2 == nil) != (err == nil) || (err == nil && msg.From() != from) {
+					res = "inconsistent"
+				}
+				return res
+			}
+			switch op {
+			case "home":
+				ev["res"] = who(w.Signer)
+			case "foreign":
+				ev["res"] = who(foreign)
+			case "hash":
+				if h, ok := hashes[obj.Hash()]; ok {
+					ev["res"] = h
+				} else {
+					ev["res"] = "other"
+				}
+			case "apply":
+				p, err := w.Begin(w.A, w.Vals[4].Addr)
+				if err != nil {
+					panic(err)
+				}
+				n1, n2 := p.State.GetNonce(w.accts[1].Addr), p.State.GetNonce(w.accts[2].Addr)
+				p.State.Prepare(obj.Hash(), common.Hash{}, 0)
+				_, _, aerr := w.A.BC.Processor().ApplyTransaction(obj, w.Signer, p.State, w.A.BC, p.Hdr, &p.Hdr.Coinbase, &p.Hdr.GasUsed, p.Hdr.GasRewards, p.GP, p.Cfg, local.FakeRecorder())
+				r1, r2 := p.State.GetNonce(w.accts[1].Addr) != n1, p.State.GetNonce(w.accts[2].Addr) != n2
+				switch {
+				case aerr != nil:
+					ev["res"], ev["errmsg"] = "err", aerr.Error()
+				case r1 && r2:
+					ev["res"] = "both"
+				case r1:
+					ev["res"] = "A"
+				case r2:
+					ev["res"] = "B"
+				default:
+					ev["res"] = "none"
+				}
+			case "json":
+				if err := obj.UnmarshalJSON(jsonB); err != nil {
+					panic(err)
+				}
+				content, via, ev["res"] = "B", op, "ok"
+			case "rlp":
+				if err := rlp.DecodeBytes(encB, obj); err != nil {
+					panic(err)
+				}
+				content, via, ev["res"] = "B", op, "ok"
+			case "rlpstream":
+				if err := obj.DecodeRLP(rlp.NewStream(bytes.NewReader(encB), 0)); err != nil {
+					panic(err)
+				}
+				content, via, ev["res"] = "B", op, "ok"
+			default:
+				panic("unknown object operation " + op)
+			}
+		}()
+		ev["content"], ev["via"] = content, via
+		env.Emit(ev)
+	}
+	return nil
+}
+
 func run(env *drive.Env) error {
 	worlds := map[int]*world{}
 	world := func(ver int) (*world, error) {
@@ -845,6 +958,10 @@ func run(env *drive.Env) error {
 			}
 		case "sigseq":
 			if err := w.sigseq(env, &b); err != nil {
+				return err
+			}
+		case "objseq":
+			if err := w.objseq(env, &b); err != nil {
 				return err
 			}
 		default:
